@@ -185,11 +185,40 @@ def v_monotonic():
     return s.read_clock(_caller_file())
 
 
+def v_monotonic_ns():
+    s = SIM
+    if s is None or not s.active:
+        return REAL["monotonic_ns"]()
+    return int(s.read_clock(_caller_file()) * 1e9)
+
+
+def v_time_ns():
+    s = SIM
+    if s is None or not s.active:
+        return REAL["time_ns"]()
+    return int((1.7e9 + s.read_clock(_caller_file())) * 1e9)
+
+
+def v_sleep(d):
+    s = SIM
+    if s is None or not s.active:
+        return REAL["sleep"](d)
+    # sleeping passes virtual time only
+    s.advance(max(0.0, float(d)))
+    s.trace("sleep", round(float(d), 6))
+
+
 def install_time_seam():
+    REAL["monotonic_ns"] = _time.monotonic_ns
+    REAL["time_ns"] = _time.time_ns
+    REAL["sleep"] = _time.sleep
     _time.perf_counter = v_perf_counter
     _time.perf_counter_ns = v_perf_counter_ns
     _time.time = v_time
     _time.monotonic = v_monotonic
+    _time.monotonic_ns = v_monotonic_ns
+    _time.time_ns = v_time_ns
+    _time.sleep = v_sleep
 
 
 # --------------------------------------------------------------------------------------
